@@ -1058,6 +1058,9 @@ func main() {
 	for k := 0; k < 9; k++ {
 		addRegex(fmt.Sprintf("verif_lvl_%d", k), fmt.Sprintf(`(?im)^[a-z0-9.\-@/:]{1,32}\(l%d\)[#>]$`, k))
 	}
+	// a pattern that matches every synthetic level prompt: a level that uses it is told apart from the
+	// others by its not-contains list only
+	addRegex("verif_lvl_any", `(?im)^[a-z0-9.\-@/:]{1,32}\(l\d\)[#>]$`)
 	// ---- mergeVariant: the statement list of Platform.mergeVariant as (guard field, assigned field,
 	// source field) triples: `if <test on v.G> { p.A = v.S }`.  Anything else in the body is emitted
 	// as the triple ("?","?","?") so that the structure theorem fails rather than ignoring it.
